@@ -1124,8 +1124,13 @@ class Fxp():
         return val
 
     def _round(self, val, method='floor'):
-        if isinstance(val, int) or np.issubdtype(np.array(val).dtype, np.integer) or np.issubdtype(np.array(val).dtype, np.object_):
+        if isinstance(val, int) or np.issubdtype(np.array(val).dtype, np.integer):
             rval = val
+        elif np.issubdtype(np.array(val).dtype, np.object_):
+            # object arrays hold Python integers (nothing to round) and/or floats, which are rounded one by one
+            _val = np.array(val)
+            rval = np.array([v if isinstance(v, (int, np.integer)) else self._round(np.float64(v), method=method) for v in _val.flatten()], 
+                            dtype=object).reshape(_val.shape)
         elif method == 'around':
             rval = np.around(val)
         elif method == 'floor':
